@@ -1142,6 +1142,11 @@ func (c *immuClient) verifiedGet(ctx context.Context, kReq *schema.KeyRequest) (
 		return nil, err
 	}
 
+	err = vEntry.Validate()
+	if err != nil {
+		return nil, err
+	}
+
 	entrySpecDigest, err := store.EntrySpecDigestFor(int(vEntry.VerifiableTx.Tx.Header.Version))
 	if err != nil {
 		return nil, err
@@ -1330,6 +1335,11 @@ func (c *immuClient) VerifiedSet(ctx context.Context, key []byte, value []byte) 
 		req,
 		grpc.Header(&metadata.HeaderMD), grpc.Trailer(&metadata.TrailerMD),
 	)
+	if err != nil {
+		return nil, err
+	}
+
+	err = verifiableTx.Validate()
 	if err != nil {
 		return nil, err
 	}
@@ -1551,6 +1561,11 @@ func (c *immuClient) VerifiedTxByID(ctx context.Context, tx uint64) (*schema.Tx,
 		return nil, err
 	}
 
+	err = vTx.Validate()
+	if err != nil {
+		return nil, err
+	}
+
 	dualProof := schema.DualProofFromProto(vTx.DualProof)
 
 	var sourceID, targetID uint64
@@ -1724,7 +1739,12 @@ func (c *immuClient) VerifiedSetReferenceAt(ctx context.Context, key []byte, ref
 		return nil, err
 	}
 
-	if verifiableTx.Tx.Header.Nentries != 1 {
+	err = verifiableTx.Validate()
+	if err != nil {
+		return nil, err
+	}
+
+	if verifiableTx.Tx.Header.Nentries != 1 || len(verifiableTx.Tx.Entries) != 1 {
 		return nil, store.ErrCorruptedData
 	}
 
@@ -1890,7 +1910,12 @@ func (c *immuClient) VerifiedZAddAt(ctx context.Context, set []byte, score float
 		return nil, err
 	}
 
-	if vtx.Tx.Header.Nentries != 1 {
+	err = vtx.Validate()
+	if err != nil {
+		return nil, err
+	}
+
+	if vtx.Tx.Header.Nentries != 1 || len(vtx.Tx.Entries) != 1 {
 		return nil, store.ErrCorruptedData
 	}
 
